@@ -52,6 +52,11 @@ def generate(ctx, n_random, corpus_stride):
                      (t3, [(X("(foo)", "a"), I(1)), (X("(foo)", "a"), I(0))]),
                      (t2, [(X("(foo)", "a"), I(0)), (X("(foo)", "a"), I(5))]),
                      (t2, [(X("(foo)", "sub", "a"), ("str", [120]))]),
+                     # one field descriptor through two paths (recursive type): both statements are legal
+                     (t3, [(X("(foo)", "a"), I(0)), (X("(foo)", "sub", "a"), I(5))]),
+                     (t3, [(X("(foo)", "sub", "s"), ("str", [])), (X("(foo)", "sub", "sub", "s"), ("str", [])), (X("(foo)", "s"), ("str", []))]),
+                     (t3, [(X("(foo)", "a"), I(0)), (X("(foo)", "sub", "a"), I(0)), (X("(foo)", "a"), I(0))]),
+                     (t2, [(X("(foo)", "a"), I(0)), (X("(foo)", "sub", "a"), I(0))]),
                      (tiny_schema(ctx, "float"), [(X("(foo)"), LM(("a", ("ident", "Infinity"))))]),
                      (tiny_schema(ctx, "float"), [(X("(foo)"), LM(("a", ("ident", "inf"))))])]:
         cases.append(("corpus", make_case(rng, ctx, "message", 0, fixed=(sch, sts))))
@@ -68,6 +73,11 @@ def generate(ctx, n_random, corpus_stride):
         cs = corpus(ek)
         for i, sts in enumerate(cs):
             if i % corpus_stride == others.index(ek) % corpus_stride or i >= len(cs) - 12:
+                cases.append(("corpus", fx(ek, sts)))
+    #     repeated and message-typed standard options (targets, edition_defaults, declaration, feature_support) next to custom ones
+    for ek in eks:
+        for i, sts in enumerate(std_custom_corpus(ek)):
+            if corpus_stride == 1 or i % 3 == 0:
                 cases.append(("corpus", fx(ek, sts)))
     # 1b. target types: every step of a name and every spelling of a value against `targets` that exclude / include the
     #     element kind; whole list on file, message and field, a rotating third on the other kinds (thorough: everywhere)
@@ -88,7 +98,7 @@ def generate(ctx, n_random, corpus_stride):
     for k, ek in enumerate(eks):
         for i, sts in enumerate(wcs):
             tail = i >= len(wcs) - 26
-            if corpus_stride == 1 or (ek == "message" and (i % 2 == 0 or tail)) or i % 16 == k or (tail and i % 4 == k % 4):
+            if corpus_stride == 1 or (ek == "message" and (i % 3 == 0 or tail)) or i % 16 == k or (tail and i % 4 == k % 4):
                 c = make_case(rng, ctx, ek, 0, fixed=(wsch[ek], sts), again=(sts if i % 2 else None))
                 c["sch_ref"] = "tw_" + ek
                 cases.append(("same-field-paths", c))
@@ -192,14 +202,18 @@ def run(ctx):
     ctx.rule = ("a case = one generated file (custom-option schema + one target element of kind file/message/field/enum/enum value/"
                 "service/method/oneof/extension range carrying 1..6 option statements); corpus: boundary integers for every integer kind, "
                 "floats to ints and ints to floats, identifiers, enums by name and number, duplicates, oneofs, deep paths, lists vs repeated, "
-                "fields without presence, target types, extensions in paths and literals, on a fixed schema; target types at every step of a "
+                "fields without presence, target types, extensions in paths and literals, on a fixed schema; one field descriptor reached through several "
+                "paths of one options message (sibling sub-messages and extensions of one type, recursive types, repeated message elements; fields "
+                "without presence in proto3 and edition 2023, with presence in proto2; zero and non-zero values; the same path again; message-literal "
+                "spellings; half of the cases with a second element carrying the same statements) as hand-made pairs on a third fixed schema and as "
+                "random statements of that shape over it and over random schemas; target types at every step of a "
                 "name (first / middle / last part, simple and extension parts) and in every spelling (path, literal, nested literal, list) "
                 "against `targets` that exclude / include the element kind, on a second fixed schema; random: staged schemas "
                 "(scalars/paths/repeated, then enums, literals, oneofs, extensions, targets, then schemas where every third field - message-typed "
                 "ones too - declares targets); when mirror model and implementation disagree, a search around the disagreeing cases "
                 "(single statements, respellings, leave-one-out, random statements over the same schema) against the specification; distinct = distinct (schema, element kind, "
                 "statements); non-trivial = at least one statement")
-    cases = generate(ctx, ctx.budget(480, 12000), ctx.budget(8, 1))
+    cases = generate(ctx, ctx.budget(440, 12000), ctx.budget(8, 1))
     outs = ctx.impl("options", [c["input"] for _, c in cases])
     terms, meta = [], []
     unmodelled = {}
